@@ -16,7 +16,7 @@ ROOT = os.path.dirname(os.path.abspath(__file__))
 REPO = os.environ.get("VERIF_REPO", "/repo")
 BUILD = os.path.join(ROOT, ".build")
 HARNESS = os.path.join(ROOT, "harness")
-EVID = os.path.join(ROOT, "evidence")
+EVID = os.environ.get("VERIF_EVIDENCE_DIR", os.path.join(ROOT, "evidence"))  # mutant runs point this elsewhere
 NCPU = int(os.environ.get("VERIF_JOBS", str(os.cpu_count() or 4)))
 
 sys.path.insert(0, ROOT)
